@@ -713,6 +713,413 @@ def _fixup_key_branches(fn: ast.FunctionDef) -> list[tuple[list[str], ast.If]]:
     return out
 
 
+# ---------------------------------------------------------------------------------------------- EntityFixup.substitute
+IDENT_RE = '[a-z_][a-z0-9_]*'
+
+
+def _substitute_cfg() -> dict:
+    """The shape of the regular expression and of the replacer of EntityFixup.substitute -> subst_cfg (SM/C17Subst.v)."""
+    vtree = ast.parse(src_text('vmf.py'))
+    fn = _find_func(vtree, 'substitute', 'EntityFixup')
+    cfg: dict[str, Any] = {}
+    # sections = list(map(re.escape, sorted(self._fixup.keys(), key=len, reverse=True)))
+    sec = [n for n in ast.walk(fn) if isinstance(n, (ast.Assign, ast.AnnAssign))
+           and ast.unparse(n.targets[0] if isinstance(n, ast.Assign) else n.target) == 'sections']
+    if len(sec) != 1:
+        raise TranslateError('substitute: expected exactly one assignment to `sections`')
+    v = sec[0].value
+    if not (isinstance(v, ast.Call) and ast.unparse(v.func) == 'list' and len(v.args) == 1 and isinstance(v.args[0], ast.Call)
+            and ast.unparse(v.args[0].func) == 'map' and len(v.args[0].args) == 2 and ast.unparse(v.args[0].args[0]) == 're.escape'):
+        raise TranslateError(f'substitute: `sections = {ast.unparse(v)[:60]}` is not list(map(re.escape, ...))')
+    keys = v.args[0].args[1]
+    plain_keys = ('self._fixup.keys()', 'self._fixup', 'fixup.keys()', 'fixup')
+    if isinstance(keys, ast.Call) and ast.unparse(keys.func) == 'sorted' and len(keys.args) == 1 and ast.unparse(keys.args[0]) in plain_keys:
+        kw = {k.arg: ast.unparse(k.value) for k in keys.keywords}
+        if not set(kw) <= {'key', 'reverse'} or kw.get('key', 'len') != 'len' or kw.get('reverse', 'False') not in ('True', 'False'):
+            raise TranslateError(f'substitute: sorted(...) arguments {kw} not recognised')
+        cfg['longest_first'] = kw.get('key') == 'len' and kw.get('reverse') == 'True'
+    elif ast.unparse(keys) in plain_keys:
+        cfg['longest_first'] = False
+    else:
+        raise TranslateError(f'substitute: alternatives `{ast.unparse(keys)[:60]}` not recognised')
+    apps = [n for n in ast.walk(fn) if isinstance(n, ast.Call) and ast.unparse(n.func) in ('sections.append', 'sections.extend', 'sections.insert')]
+    if not apps:
+        cfg['ident_fallback'] = False
+    elif len(apps) == 1 and ast.unparse(apps[0].func) == 'sections.append' and len(apps[0].args) == 1 \
+            and isinstance(apps[0].args[0], ast.Constant) and apps[0].args[0].value == IDENT_RE:
+        cfg['ident_fallback'] = True
+    else:
+        raise TranslateError('substitute: what is added to `sections` is not the identifier fallback')
+    comp = [n for n in ast.walk(fn) if isinstance(n, ast.Call) and ast.unparse(n.func) == 're.compile']
+    if len(comp) != 1 or not comp[0].args or not isinstance(comp[0].args[0], ast.JoinedStr) or comp[0].keywords:
+        raise TranslateError('substitute: re.compile(f"...") not found')
+    parts = comp[0].args[0].values
+    if not (len(parts) == 3 and isinstance(parts[0], ast.Constant) and isinstance(parts[2], ast.Constant) and parts[2].value == ')'
+            and isinstance(parts[1], ast.FormattedValue) and ast.unparse(parts[1].value) == "'|'.join(sections)"):
+        raise TranslateError('substitute: pattern is not <prefix>(<alternatives joined by |>)')
+    if parts[0].value == '(!)?\\$(':
+        cfg['bang_group'] = True
+    elif parts[0].value == '\\$(':
+        cfg['bang_group'] = False
+    else:
+        raise TranslateError(f'substitute: pattern prefix {parts[0].value!r} not recognised')
+    flags = [ast.unparse(a) for a in comp[0].args[1:]]
+    if flags not in ([], ['re.IGNORECASE'], ['re.I']):
+        raise TranslateError(f'substitute: regex flags {flags}')
+    cfg['ignore_case'] = bool(flags)
+    # the pattern object that is compiled is the one that is used, on the text, with the replacer
+    subs = [n for n in ast.walk(fn) if isinstance(n, ast.Call) and isinstance(n.func, ast.Attribute) and n.func.attr in ('sub', 'subn')]
+    if len(subs) != 1 or ast.unparse(subs[0]) != 'self._matcher.sub(replacer, text)':
+        raise TranslateError('substitute: `self._matcher.sub(replacer, text)` not found')
+    rep = [n for n in fn.body if isinstance(n, ast.FunctionDef) and n.name == 'replacer']
+    if len(rep) != 1:
+        raise TranslateError('substitute: replacer() not found')
+    rb = _body(rep[0])
+    if not (len(rb) == 4 and ast.unparse(rb[0]) == 'has_inv, varname = match.groups()' and isinstance(rb[1], ast.Try)
+            and isinstance(rb[2], ast.If) and ast.unparse(rb[3]) == 'return res'):
+        raise TranslateError('substitute: replacer() body shape not recognised')
+    tr = rb[1]
+    look = ast.unparse(tr.body[0]) if len(tr.body) == 1 else ''
+    if look == 'res = fixup[varname.casefold()].value':
+        cfg['lookup_folded'] = True
+    elif look == 'res = fixup[varname].value':
+        cfg['lookup_folded'] = False
+    else:
+        raise TranslateError(f'substitute: lookup `{look[:60]}` not recognised')
+    if not (len(tr.handlers) == 1 and ast.unparse(tr.handlers[0].type) == 'KeyError' and not tr.orelse and not tr.finalbody):
+        raise TranslateError('substitute: lookup handler')
+    hb = tr.handlers[0].body
+    if not (len(hb) == 2 and isinstance(hb[0], ast.If) and ast.unparse(hb[0].test) == 'default is None' and len(hb[0].body) == 1
+            and isinstance(hb[0].body[0], ast.Raise) and ast.unparse(hb[0].body[0].exc.func) == 'KeyError' and not hb[0].orelse
+            and ast.unparse(hb[1]) == 'res = default'):
+        raise TranslateError('substitute: missing-variable handling not recognised')
+    iv = rb[2]
+    if not (ast.unparse(iv.test) == 'has_inv is not None' and not iv.orelse and len(iv.body) == 1 and isinstance(iv.body[0], ast.If)
+            and ast.unparse(iv.body[0].test) == 'allow_invert'):
+        raise TranslateError('substitute: inversion branch not recognised')
+    inv_if = iv.body[0]
+    ok_inv = len(inv_if.body) == 1 and isinstance(inv_if.body[0], ast.Try) and len(inv_if.body[0].body) == 1 and \
+        ast.unparse(inv_if.body[0].body[0]) == "res = '0' if srctools.BOOL_LOOKUP[res.casefold()] else '1'" and \
+        len(inv_if.body[0].handlers) == 1 and ast.unparse(inv_if.body[0].handlers[0].type) == 'KeyError' and \
+        all(isinstance(x, ast.Pass) for x in inv_if.body[0].handlers[0].body)
+    if not ok_inv:
+        raise TranslateError('substitute: allow_invert branch is not the BOOL_LOOKUP inversion')
+    oe = [ast.unparse(x) for x in inv_if.orelse]
+    if oe == ["res = '!' + res"]:
+        cfg['bang_readd'] = True
+    elif oe in ([], ['pass']):
+        cfg['bang_readd'] = False
+    else:
+        raise TranslateError(f'substitute: what happens to a matched "!" without allow_invert: {oe}')
+    # srctools.BOOL_LOOKUP
+    bl = None
+    for n in ast.parse(src_text('__init__.py')).body:
+        if isinstance(n, (ast.Assign, ast.AnnAssign)) and ast.unparse(n.targets[0] if isinstance(n, ast.Assign) else n.target) == 'BOOL_LOOKUP':
+            bl = n.value
+    if not isinstance(bl, ast.Dict) or not all(isinstance(k, ast.Constant) and isinstance(k.value, str) and isinstance(v_, ast.Constant)
+                                               and isinstance(v_.value, bool) for k, v_ in zip(bl.keys, bl.values)):
+        raise TranslateError('srctools.BOOL_LOOKUP is not a literal {str: bool} dict')
+    cfg['bools'] = [(k.value, v_.value) for k, v_ in zip(bl.keys, bl.values)]
+    cfg['digest'] = ast_digest(fn)
+    return cfg
+
+
+# ---------------------------------------------------------------------------------------------- value sites of collapse_one
+SUBST_CALL, NAME_CALL, KEY_CALL = 'inst.fixup.substitute', 'inst.fixup_name', 'inst.fixup_key'
+PARSE_CALLS = {'Angle.from_str', 'Vec.from_str', 'srctools.conv_float', 'conv_float', 'Matrix.from_angstr', 'srctools.conv_int', 'conv_int'}
+WRAP_CALLS = {'str', 'format_float'}
+OBJ_RAW = ('OBJ',)       # a loop variable whose string attributes are template data (an Output of the copy)
+
+
+def _sx_coq(e) -> str:
+    if e[0] in ('SRaw', 'SOther'):
+        return e[0]
+    return '(' + e[0] + ' ' + ' '.join(_sx_coq(x) for x in e[1:]) + ')'
+
+
+class _Sites:
+    """Data flow of the per-entity loop of collapse_one (fail-closed on statement forms it does not know)."""
+    def __init__(self) -> None:
+        self.sites: list[tuple[str, tuple]] = []
+        self.consumer_calls = 0
+        self.subst_defaults: list[str] = []
+
+    def call_site(self, node: tuple) -> tuple:
+        if ('call', node) not in self.sites:
+            self.sites.append(('call', node))
+        return node
+
+    def wrap(self, xs: list) -> tuple:
+        data = []
+        for x in xs:
+            if x != ('SOther',) and x not in data:
+                data.append(x)
+        if not data:
+            return ('SOther',)
+        if len(data) > 1:
+            raise TranslateError('collapse_one: two template strings are combined in one expression')
+        return data[0] if data[0][0] == 'SWrap' else ('SWrap', data[0])
+
+    def sx(self, e: ast.expr, env: dict) -> tuple:
+        if isinstance(e, ast.Constant):
+            return ('SOther',)
+        if isinstance(e, ast.Name):
+            v = env.get(e.id, ('SOther',))
+            return ('SOther',) if v is OBJ_RAW else v
+        if isinstance(e, ast.Subscript):
+            self.sx(e.slice, env)
+            if isinstance(e.value, ast.Name) and e.value.id == 'new_ent':
+                return ('SRaw',)
+            return self.wrap([self.sx(e.value, env)])
+        if isinstance(e, ast.Attribute):
+            if isinstance(e.value, ast.Name):
+                v = env.get(e.value.id)
+                if v is OBJ_RAW:
+                    return ('SRaw',)
+                return v if v is not None else ('SOther',)
+            return self.wrap([self.sx(e.value, env)])
+        if isinstance(e, ast.Call):
+            callee = ast.unparse(e.func)
+            if any(isinstance(a, ast.Starred) for a in e.args) or any(k.arg is None for k in e.keywords):
+                raise TranslateError(f'collapse_one line {e.lineno}: star arguments')
+            args = [self.sx(a, env) for a in e.args] + [self.sx(k.value, env) for k in e.keywords]
+            if callee == SUBST_CALL:
+                self.consumer_calls += 1
+                if not e.args:
+                    raise TranslateError('collapse_one: substitute() without text')
+                self.subst_defaults.append(ast.unparse(e.args[1]) if len(e.args) > 1 else
+                                           next((ast.unparse(k.value) for k in e.keywords if k.arg == 'default'), 'None'))
+                return self.call_site(('SSubst', args[0]))
+            if callee == NAME_CALL:
+                self.consumer_calls += 1
+                if len(e.args) != 1:
+                    raise TranslateError('collapse_one: fixup_name() call shape')
+                return self.call_site(('SName', args[0]))
+            if callee == KEY_CALL:
+                self.consumer_calls += 1
+                if len(e.args) != 4 or e.keywords:
+                    raise TranslateError('collapse_one: fixup_key() call shape')
+                return self.call_site(('SKey', args[3]))
+            if callee in PARSE_CALLS:
+                if not e.args:
+                    raise TranslateError(f'collapse_one: {callee}() without argument')
+                return self.call_site(('SParse', args[0])) if args[0] != ('SOther',) else ('SOther',)
+            if isinstance(e.func, ast.Attribute):
+                args = [self.sx(e.func.value, env)] + args
+            return self.wrap(args)
+        if isinstance(e, ast.UnaryOp):
+            return self.wrap([self.sx(e.operand, env)])
+        if isinstance(e, ast.BinOp):
+            return self.wrap([self.sx(e.left, env), self.sx(e.right, env)])
+        if isinstance(e, ast.BoolOp):
+            return self.wrap([self.sx(v, env) for v in e.values])
+        if isinstance(e, ast.Compare):
+            for x in [e.left, *e.comparators]:
+                self.sx(x, env)
+            return ('SOther',)
+        if isinstance(e, ast.JoinedStr):
+            return self.wrap([self.sx(v.value, env) for v in e.values if isinstance(v, ast.FormattedValue)])
+        if isinstance(e, (ast.Tuple, ast.List, ast.Set)):
+            return self.wrap([self.sx(v, env) for v in e.elts])
+        raise TranslateError(f'collapse_one line {getattr(e, "lineno", "?")}: expression {type(e).__name__} not supported in the per-entity loop')
+
+    @staticmethod
+    def label(t: ast.expr, env: dict) -> str | None:
+        if isinstance(t, ast.Name):
+            return 'local'
+        if isinstance(t, ast.Subscript):
+            base = ast.unparse(t.value)
+            if base == 'new_ent':
+                return 'entity-key'
+            if base == 'new_ent.fixup':
+                return 'nested-fixup'
+            return None
+        if isinstance(t, ast.Attribute) and isinstance(t.value, ast.Name):
+            v = env.get(t.value.id)
+            if v is OBJ_RAW:
+                return 'output-' + t.attr
+            if v is not None:
+                return 'local'
+        return None
+
+    @staticmethod
+    def merge(envs: list[dict]) -> dict:
+        out: dict = {}
+        for k in {k for e in envs for k in e}:
+            vals = []
+            for e in envs:
+                if k in e and e[k] not in vals:
+                    vals.append(e[k])
+            if OBJ_RAW in vals and len(vals) > 1:
+                raise TranslateError(f'collapse_one: `{k}` is an output in one branch and a string in another')
+            acc = vals[-1]
+            for v in reversed(vals[:-1]):
+                acc = ('SJoin', v, acc)
+            out[k] = acc
+        return out
+
+    def block(self, body: list[ast.stmt], env: dict) -> tuple[dict, bool]:
+        """Returns (environment afterwards, control never reaches the end)."""
+        for st in body:
+            env, dead = self.stmt(st, env)
+            if dead:
+                return env, True
+        return env, False
+
+    def store(self, tgt: ast.expr, val: tuple, env: dict) -> None:
+        lab = self.label(tgt, env)
+        if isinstance(tgt, ast.Name):
+            env[tgt.id] = val
+        elif lab is None:
+            return        # caches, counters: not a value of the collapsed map (a missing sink shows up in *_present)
+        if val != ('SOther',) and lab != 'local' and (lab, val) not in self.sites:
+            self.sites.append((lab, val))
+
+    def stmt(self, st: ast.stmt, env: dict) -> tuple[dict, bool]:
+        if isinstance(st, (ast.Continue, ast.Raise, ast.Return)):
+            return env, True
+        if isinstance(st, ast.Pass):
+            return env, False
+        if isinstance(st, ast.Expr):
+            self.sx(st.value, env)
+            return env, False
+        if isinstance(st, ast.Assign):
+            if len(st.targets) != 1 or isinstance(st.targets[0], (ast.Tuple, ast.List)):
+                raise TranslateError(f'collapse_one line {st.lineno}: assignment shape')
+            self.store(st.targets[0], self.sx(st.value, env), env)
+            return env, False
+        if isinstance(st, ast.AnnAssign) and st.value is not None:
+            self.store(st.target, self.sx(st.value, env), env)
+            return env, False
+        if isinstance(st, ast.AugAssign):
+            self.store(st.target, self.wrap([self.sx(_as_load(st.target), env), self.sx(st.value, env)]), env)
+            return env, False
+        if isinstance(st, ast.If):
+            self.sx(st.test, env)
+            e1, d1 = self.block(st.body, dict(env))
+            e2, d2 = self.block(st.orelse, dict(env))
+            live = [e for e, d in ((e1, d1), (e2, d2)) if not d]
+            return (self.merge(live), False) if live else (env, True)
+        if isinstance(st, ast.Try):
+            if st.finalbody:
+                raise TranslateError(f'collapse_one line {st.lineno}: try/finally')
+            e1, d1 = self.block(st.body + st.orelse, dict(env))
+            outs = [(e1, d1)] + [self.block(h.body, dict(env)) for h in st.handlers]
+            live = [e for e, d in outs if not d]
+            return (self.merge(live), False) if live else (env, True)
+        if isinstance(st, ast.For):
+            src = ast.unparse(st.iter)
+            inner = dict(env)
+            if src in ('new_ent.items()', 'list(new_ent.items())', 'new_ent.fixup.items()', 'list(new_ent.fixup.items())'):
+                if not (isinstance(st.target, ast.Tuple) and len(st.target.elts) == 2 and all(isinstance(x, ast.Name) for x in st.target.elts)):
+                    raise TranslateError(f'collapse_one line {st.lineno}: loop target')
+                inner[st.target.elts[0].id] = ('SOther',)
+                inner[st.target.elts[1].id] = ('SRaw',)
+            elif src in ('new_ent.outputs', 'list(new_ent.outputs)') and isinstance(st.target, ast.Name):
+                inner[st.target.id] = OBJ_RAW
+            else:
+                raise TranslateError(f'collapse_one line {st.lineno}: loop over `{src[:40]}` inside the per-entity loop')
+            if st.orelse:
+                raise TranslateError(f'collapse_one line {st.lineno}: for/else')
+            e1, _ = self.block(st.body, inner)
+            merged = self.merge([env, e1])       # zero or more iterations
+            return {k: merged[k] for k in env}, False
+        raise TranslateError(f'collapse_one line {st.lineno}: statement {type(st).__name__} not supported in the per-entity loop')
+
+
+def _value_sites(c1: ast.FunctionDef) -> dict:
+    loops = [n for n in c1.body if isinstance(n, ast.For) and ast.unparse(n.target) == 'new_ent' and ast.unparse(n.iter) == 'new_ents']
+    if len(loops) != 1 or loops[0].orelse:
+        raise TranslateError('collapse_one: the per-entity loop `for new_ent in new_ents` not found')
+    S = _Sites()
+    S.block(loops[0].body, {})
+    total = sum(1 for n in ast.walk(c1) if isinstance(n, ast.Call) and ast.unparse(n.func) in (SUBST_CALL, NAME_CALL, KEY_CALL))
+    # .fixup_name / .fixup_key / .substitute reached under another spelling are not followed: fail closed
+    other = [ast.unparse(n.func) for n in ast.walk(c1) if isinstance(n, ast.Call) and isinstance(n.func, ast.Attribute)
+             and n.func.attr in ('substitute', 'fixup_name', 'fixup_key') and ast.unparse(n.func) not in (SUBST_CALL, NAME_CALL, KEY_CALL)]
+    if other:
+        raise TranslateError(f'collapse_one: calls {other} are not made through `inst`')
+    if total != S.consumer_calls:
+        raise TranslateError(f'collapse_one: {total} substitute/fixup_name/fixup_key calls, {S.consumer_calls} of them in the per-entity loop')
+    return {'sites': S.sites, 'subst_defaults': S.subst_defaults}
+
+
+# ---------------------------------------------------------------------------------------------- visible objects, ID maps
+def _visibility_and_ids(c1: ast.FunctionDef, fk: ast.FunctionDef) -> dict:
+    """`for old_brush in file.vmf.brushes` / `for old_ent in file.vmf.entities`: the guard that skips hidden objects, that
+    nothing else skips one, and that both copies and the SIDE_LIST branch of fixup_key use the same face-ID map."""
+    def loop(attr: str) -> ast.For:
+        found = [n for n in ast.walk(c1) if isinstance(n, ast.For) and ast.unparse(n.iter) == f'file.vmf.{attr}']
+        if len(found) != 1:
+            raise TranslateError(f'collapse_one: expected exactly one loop over file.vmf.{attr}')
+        return found[0]
+
+    def guard(lp: ast.For, var: str, tests: tuple[str, ...]) -> tuple[bool, bool]:
+        first = lp.body[0]
+        skips = isinstance(first, ast.If) and ast.unparse(first.test) in tests and len(first.body) == 1 \
+            and isinstance(first.body[0], ast.Continue) and not first.orelse
+        # no other way to leave an iteration early / to drop a copy
+        others = [n for st in lp.body[(1 if skips else 0):] for n in ast.walk(st)
+                  if isinstance(n, (ast.Continue, ast.Break, ast.Return)) and _innermost_loop(lp, n) is lp]
+        return skips, not others
+    wb, eb = loop('brushes'), loop('entities')
+    w_skip, w_only = guard(wb, 'old_brush', ('old_brush.hidden or not old_brush.vis_shown', 'not old_brush.vis_shown or old_brush.hidden'))
+    e_skip, e_only = guard(eb, 'old_ent', ('visgroup is False and (old_ent.hidden or not old_ent.vis_shown)',
+                                           'visgroup is False and (not old_ent.vis_shown or old_ent.hidden)'))
+    adds = {'vmf.add_brush(new_brush)': wb, 'vmf.add_ent(new_ent)': eb}
+    added = all(any(isinstance(st, ast.Expr) and ast.unparse(st.value) == call for st in lp.body) for call, lp in adds.items())
+    copies = [n for n in ast.walk(c1) if isinstance(n, ast.Call) and isinstance(n.func, ast.Attribute) and n.func.attr == 'copy'
+              and ast.unparse(n.func.value) in ('old_brush', 'old_ent')]
+    same_map = len(copies) == 2 and all({k.arg: ast.unparse(k.value) for k in c.keywords}.get('side_mapping') == 'inst.face_ids' for c in copies)
+    to_target = len(copies) == 2 and all({k.arg: ast.unparse(k.value) for k in c.keywords}.get('vmf_file') == 'vmf' for c in copies)
+    sl = [nd for nms, nd in _fixup_key_branches(fk) if 'SIDE_LIST' in nms]
+    sl_nodes = [n for st in (sl[0].body if len(sl) == 1 else []) for n in ast.walk(st)]
+    reads_map = any(isinstance(n, ast.Subscript) and ast.unparse(n.value) == 'self.face_ids' for n in sl_nodes) \
+        and not any(isinstance(n, ast.Attribute) and n.attr.endswith('_ids') and n.attr != 'face_ids' for n in sl_nodes)
+    return {'hidden_world_brushes_skipped': w_skip, 'world_brush_loop_skips_nothing_else': w_only,
+            'hidden_entities_skipped_when_visgroups_stripped': e_skip, 'entity_loop_skips_nothing_else': e_only,
+            'copies_added_to_target': added and to_target, 'face_ids_shared_by_copies': same_map, 'side_lists_read_face_ids': reads_map}
+
+
+def _innermost_loop(root: ast.For, node: ast.AST):
+    """The innermost for/while loop inside [root] (inclusive) that contains [node]."""
+    best = None
+    for lp in ast.walk(root):
+        if isinstance(lp, (ast.For, ast.While)) and any(n is node for n in ast.walk(lp)):
+            if best is None or any(n is lp for n in ast.walk(best)):
+                best = lp
+    return best
+
+
+# ---------------------------------------------------------------------------------------------- what localise writes
+def _write_modes(before: dict[str, Any], after: SObj, cls: str) -> list[tuple[str, str, str]]:
+    """For every field of a symbolic object: was the object it refers to modified in place, re-bound, or left alone?"""
+    def snap_eq(a, b) -> bool:
+        return a == b
+    out = []
+    for f, (obj0, snap0) in before.items():
+        obj1 = after.f[f]
+        items0 = obj0 if isinstance(obj0, list) else [obj0]
+        items1 = obj1 if isinstance(obj1, list) else [obj1]
+        if obj0 is None and obj1 is None:
+            continue
+        if obj1 is not obj0 or len(items0) != len(items1) or any(x is not y for x, y in zip(items0, items1)):
+            out.append((cls, f, 'WRebound'))
+        elif _deep_snap(obj1) != snap0:
+            out.append((cls, f, 'WInPlace'))
+        else:
+            out.append((cls, f, 'WUntouched'))
+    return out
+
+
+def _deep_snap(o):
+    if isinstance(o, list):
+        return [_deep_snap(x) for x in o]
+    if isinstance(o, SObj):
+        return (o.kind, {k: _deep_snap(v) for k, v in o.f.items()})
+    return o
+
+
 # ---------------------------------------------------------------------------------------------- main
 def translate() -> tuple[str, dict]:
     I = Interp()
@@ -767,7 +1174,14 @@ def translate() -> tuple[str, dict]:
             '_disp_verts': [SObj('DispVertex', {'offset': sym_vec('vo'), 'normal': sym_vec('vn'), 'offset_norm': sym_vec('von')})]
             if is_disp else None})
     sd = mk_side(True); o = sym_vec('o'); m = sym_mat('m')
+    side_fields = ['planes', 'uaxis', 'vaxis', 'strata_points', 'disp_pos', '_disp_verts']
+    before_side = {f: (sd.f[f], _deep_snap(sd.f[f])) for f in side_fields}
+    vert0 = sd.f['_disp_verts'][0]
+    before_vert = {f: (vert0.f[f], _deep_snap(vert0.f[f])) for f in ('offset', 'normal', 'offset_norm')}
     I.call_method(sd, 'localise', [o, m])
+    writes = _write_modes(before_side, sd, 'Side')
+    if sd.f['_disp_verts'] and sd.f['_disp_verts'][0] is vert0:
+        writes += _write_modes(before_vert, vert0, 'DispVertex_in_Side')
     P3 = [('p0', V), ('p1', V), ('p2', V), ('o', V), ('m', Mx)]
     for i in range(3):
         E.define(f'g_side_plane{i}', P3, out_vec(sd.f['planes'][i]), f'Side.localise: planes[{i}] afterwards')
@@ -791,7 +1205,11 @@ def translate() -> tuple[str, dict]:
     sd = mk_side(False)
     sol = SObj('Solid', {'sides': [sd]})
     o = sym_vec('o'); m = sym_mat('m')
+    before_sol = {'sides': (sol.f['sides'], _deep_snap(sol.f['sides']))}
     I.call_method(sol, 'localise', [o, m])
+    writes += _write_modes(before_sol, sol, 'Solid')
+    side['localise_writes'] = writes
+    E.lines.append('Definition g_localise_writes : list write := [' + '; '.join(f'("{c}", "{f}", {md})' for c, f, md in writes) + '].')
     E.define('g_solid_plane0', P3, out_vec(sd.f['planes'][0]), 'Solid.localise: sides[0].planes[0] afterwards')
     E.define('g_solid_plane2', P3, out_vec(sd.f['planes'][2]), 'Solid.localise: sides[0].planes[2] afterwards')
     E.define('g_solid_strata_point', [('sp', V), ('o', V), ('m', Mx)], out_vec(sd.f['strata_points'][0]),
@@ -916,6 +1334,18 @@ def translate() -> tuple[str, dict]:
     names, node = want['ANGLES']
     if ast.unparse(node.body[0]) != 'return str(Angle.from_str(value) @ self.orient)':
         raise TranslateError('fixup_key: ANGLES branch not recognised')
+    # name-typed keyvalues (type.is_ent_name, TARG_DEST_CLASS when not a classname): the value goes through fixup_name, whole
+    name_br = [nd for nms, nd in branches if '<is_ent_name>' in nms]
+    cls_br = [nd for nms, nd in branches if 'TARG_DEST_CLASS' in nms]
+    renames = len(name_br) == 1 and [ast.unparse(x) for x in name_br[0].body] == ['return self.fixup_name(value)']
+    cls_ok = len(cls_br) == 1 and len(cls_br[0].body) == 1 and isinstance(cls_br[0].body[0], ast.If) and \
+        ast.unparse(cls_br[0].body[0].test) == 'value.casefold() not in classnames' and \
+        [ast.unparse(x) for x in cls_br[0].body[0].body] == ['return self.fixup_name(value)'] and not cls_br[0].body[0].orelse
+    tail = _body(fk)[-1]
+    falls_through = isinstance(tail, ast.Return) and ast.unparse(tail) == 'return value'
+    E.lines.append(f'Definition g_fixup_key_name_types_renamed : bool := {"true" if renames and cls_ok else "false"}.')
+    E.lines.append(f'Definition g_fixup_key_other_types_unchanged : bool := {"true" if falls_through else "false"}.')
+    side['fixup_key_name_branch'] = {'renames': renames, 'classname_guard': cls_ok, 'falls_through': falls_through}
 
     # fixup_name + FixupStyle
     fn_tab = _fixup_name_table(_find_func(itree, 'fixup_name', 'Instance'))
@@ -937,6 +1367,23 @@ def translate() -> tuple[str, dict]:
     side['fixup_name'] = fn_tab
     side['fixup_styles'] = styles
 
+    # EntityFixup.substitute: the regular expression and the replacer
+    sc = _substitute_cfg()
+    side['substitute'] = sc
+    cb = lambda b: 'true' if b else 'false'      # noqa: E731
+    E.lines.append('Definition g_subst_cfg : subst_cfg := {|\n'
+                   f'  sc_longest_first := {cb(sc["longest_first"])}; sc_ident_fallback := {cb(sc["ident_fallback"])};\n'
+                   f'  sc_ignore_case := {cb(sc["ignore_case"])}; sc_bang_group := {cb(sc["bang_group"])}; sc_bang_readd := {cb(sc["bang_readd"])};\n'
+                   f'  sc_lookup_folded := {cb(sc["lookup_folded"])};\n'
+                   '  sc_bools := [' + '; '.join(f'({_coq_codes(k)}, {cb(v_)})' for k, v_ in sc['bools']) + '] |}.')
+
+    # value sites of collapse_one: in which order substitute / fixup_name / fixup_key / parsers see the template strings
+    vs = _value_sites(c1)
+    side['value_sites'] = [(lab, _sx_coq(e)) for lab, e in vs['sites']]
+    E.lines.append('Definition g_collapse_sites : list site := [\n  ' +
+                   ';\n  '.join(f'({_coq_codes(lab)}, {_sx_coq(e)})' for lab, e in vs['sites']) + '].')
+    E.lines.append(f'Definition g_collapse_subst_defaults_empty : bool := {cb(all(d == repr("") for d in vs["subst_defaults"]))}.')
+
     # collapse_all loop shape
     shape = _collapse_all_shape(_find_func(itree, 'collapse_all'), itree)
     side['collapse_all'] = shape
@@ -948,16 +1395,55 @@ def translate() -> tuple[str, dict]:
     cen = _template_census(c1)
     side['template_census'] = cen
     ro_calls = {'copy', 'casefold'}
+    # the classes of the template objects that are copied: `for X in file.vmf.<attr>` with VMF.<attr>: list[<Class>]
+    vmf_cls = next((n for n in ast.parse(src_text('vmf.py')).body if isinstance(n, ast.ClassDef) and n.name == 'VMF'), None)
+    if vmf_cls is None:
+        raise TranslateError('vmf.py: class VMF not found')
+    vmf_ann = {n.target.id: ast.unparse(n.annotation) for n in vmf_cls.body if isinstance(n, ast.AnnAssign) and isinstance(n.target, ast.Name)}
+    # innermost enclosing loop that binds the receiver
+    def binder(recv: str, line: int) -> str:
+        best = ''
+        for lp in ast.walk(c1):
+            if isinstance(lp, ast.For) and lp.lineno <= line <= (lp.end_lineno or lp.lineno):
+                if isinstance(lp.target, ast.Name) and lp.target.id == recv:
+                    best = ast.unparse(lp.iter)
+                elif isinstance(lp.target, ast.Tuple) and isinstance(lp.iter, ast.Call) and ast.unparse(lp.iter.func) == 'zip':
+                    for t, a in zip(lp.target.elts, lp.iter.args):
+                        if isinstance(t, ast.Name) and t.id == recv:
+                            best = ast.unparse(a)
+        return best
+    copied: list[str] = []
+    for recv, meth, line in cen['calls']:
+        if meth != 'copy':
+            continue
+        src = binder(recv, line)
+        if src.startswith('file.vmf.') and src[len('file.vmf.'):] in vmf_ann:
+            ann = vmf_ann[src[len('file.vmf.'):]]
+            cls = ann[len('list['):-1].strip('\'"') if ann.startswith('list[') and ann.endswith(']') else ''
+            if not cls.isidentifier():
+                raise TranslateError(f'VMF.{src[len("file.vmf."):]}: annotation `{ann}` is not list[Class]')
+            if cls not in copied:
+                copied.append(cls)
+        else:
+            raise TranslateError(f'collapse_one line {line}: `{recv}.copy()` on a template object of unknown class (from `{src}`)')
+    side['copied_classes'] = copied
+    # which template objects are copied at all: the guards at the head of the two copying loops, and the ID maps they share
+    vis = _visibility_and_ids(c1, fk)
+    side['visibility_and_ids'] = vis
+    for k, val in vis.items():
+        E.lines.append(f'Definition g_collapse_{k} : bool := {"true" if val else "false"}.')
+    E.lines.append('Definition g_collapse_copied_classes : list string := [' + '; '.join(f'"{c}"' for c in copied) + '].')
     E.lines.append('Definition g_collapse_template_method_calls : list (list N) := [' + '; '.join(_coq_codes(c[1]) for c in cen['calls']) + '].')
     E.lines.append(f'Definition g_collapse_template_stores : nat := {len(cen["stores"])}.')
     E.lines.append('Definition g_template_readonly_methods : list (list N) := [' + '; '.join(_coq_codes(c) for c in sorted(ro_calls)) + '].')
 
     side['bodies_executed'] = sorted(I.used)
     side['digests'] = {'collapse_one': ast_digest(c1), 'collapse_all': ast_digest(_find_func(itree, 'collapse_all')),
-                       'fixup_key': ast_digest(fk)}
+                       'fixup_key': ast_digest(fk), 'substitute': sc['digest']}
     head = ['(* GENERATED by translate/c17_formulas.py from src/srctools/{math,vmf,instancing}.py. Do not edit. *)',
-            'From Coq Require Import Reals ZArith NArith List.', 'From SV Require Import Rot.C17Base SM.C17Name.',
-            'Import ListNotations.', 'Open Scope R_scope.', '']
+            'From Coq Require Import Reals ZArith NArith List String.',
+            'From SV Require Import Rot.C17Base SM.C17Name SM.C17Subst SM.C17Sites SM.C17Frame.',
+            'Import ListNotations.', 'Open Scope string_scope.', 'Open Scope R_scope.', '']
     side['defs'] = sorted(E.defs)
     _LAST.clear()
     _LAST.update(E.defs)
